@@ -68,13 +68,17 @@ int main(int argc, char** argv) {
             Rotation Rqa(qa);                               outRot("Rqa", Rqa);
             roundTrips(R);
         } else if (mode == "quat") {
-            Vec4 e(in("e0", 0.75, "param"), in("e1", 0.25, "param"), in("e2", -0.375, "param"), in("e3", 0.5, "param"));
-            Vec4 f(in("f0", 0.5, "param"), in("f1", -0.625, "param"), in("f2", 0.25, "param"), in("f3", 0.375, "param"));
+            // default seeds have rational norm (1): when one quaternion is pinned its normalisation is exact
+            Vec4 e(in("e0", 0.2, "param"), in("e1", 0.4, "param"), in("e2", -0.4, "param"), in("e3", 0.8, "param"));
+            Vec4 f(in("f0", 0.5, "param"), in("f1", -0.5, "param"), in("f2", 0.5, "param"), in("f3", 0.5, "param"));
             Quaternion q(e), p(f[0], f[1], f[2], f[3]);     outV4("q", q.asVec4()); outV4("p", p.asVec4());
             Rotation R(q), Rp(p);                           outRot("R", R); outRot("Rp", Rp);
             Quaternion qp = q * p;                          outV4("qp", qp.asVec4());
             Rotation Rqp; Rqp.setRotationFromQuaternion(qp);   outRot("Rqp", Rqp);
             outV4("qn", Quaternion(e, true).normalize().asVec4());
+            // non-canonical quaternion (q0 may be negative) straight to angle-axis: reaches the angle > pi wrap-around
+            Vec4 aq = q.convertQuaternionToAngleAxis();         outV4("aq", aq);
+            Rotation Raq(aq[0], UnitVec3(Vec3(aq[1], aq[2], aq[3]), true));    outRot("Raq", Raq);
             roundTrips(R);
         } else if (mode == "oneaxis") {
             CoordinateAxis i = ax(argOr(argc, argv, 2, "X"));
